@@ -1,5 +1,6 @@
 SPECIFICATION Spec
-CONSTANTS Cases <- BloomCases
+CONSTANTS Devs = {}
+          Cases <- BloomCases
           GF = 2
           FPKeys = {1, 2, 3, 4, 5}
 INVARIANTS NoFalseNegative ChainShape CountRight
